@@ -50,10 +50,7 @@ func parseRecipe(s string) recipeSpec {
 		return r
 	}
 	r.L, _ = strconv.Atoi(f[0])
-	a, _ := strconv.ParseUint(f[1], 10, 32)
-	q, _ := strconv.ParseUint(f[2], 10, 32)
-	x, _ := strconv.ParseUint(f[3], 10, 32)
-	r.allow, r.require, r.exclude = uint32(a), uint32(q), uint32(x)
+	r.allow, r.require, r.exclude = flagWord(f[1]), flagWord(f[2]), flagWord(f[3])
 	r.ac = decCps(f[4])
 	r.rs = decList(f[5])
 	if f[5] != "-" && r.rs == nil {
@@ -61,6 +58,31 @@ func parseRecipe(s string) recipeSpec {
 	}
 	r.ec = decCps(f[6])
 	return r
+}
+
+// flagWord: a number, or the NAME of a flag constant of the package (then the package's own value
+// is used, while the model uses the documented one).
+func flagWord(s string) uint32 {
+	switch s {
+	case "Uppers":
+		return uint32(spg.Uppers)
+	case "Lowers":
+		return uint32(spg.Lowers)
+	case "Digits":
+		return uint32(spg.Digits)
+	case "Symbols":
+		return uint32(spg.Symbols)
+	case "Ambiguous":
+		return uint32(spg.Ambiguous)
+	case "None":
+		return uint32(spg.None)
+	case "Letters":
+		return uint32(spg.Letters)
+	case "All":
+		return uint32(spg.All)
+	}
+	v, _ := strconv.ParseUint(s, 10, 32)
+	return uint32(v)
 }
 
 func (r recipeSpec) enc() string {
@@ -280,12 +302,13 @@ type executor struct {
 	chars   map[string]*spg.CharRecipe
 	lists   map[string]*spg.WordList
 	listSrc map[string][]string
+	seps    map[string]spg.SFFunction // long-lived separator functions (sepobj=)
 	opgen   string // path of the opgen binary
 	tmpdir  string
 }
 
 func newExecutor() *executor {
-	return &executor{kept: map[string]keptPassword{}, chars: map[string]*spg.CharRecipe{}, lists: map[string]*spg.WordList{}, listSrc: map[string][]string{}}
+	return &executor{kept: map[string]keptPassword{}, chars: map[string]*spg.CharRecipe{}, lists: map[string]*spg.WordList{}, listSrc: map[string][]string{}, seps: map[string]spg.SFFunction{}}
 }
 
 // the CharRecipe an op works on: a fresh value, or (obj=<id>) a long-lived one whose public
@@ -375,7 +398,7 @@ func (e *executor) wordList(a opArgs) (*spg.WordList, error, func() string) {
 			}
 		}
 	}
-	src := append([]string{}, words...)
+	src := callerBuffer(words)
 	wl, err := spg.NewWordList(src)
 	capt.take()
 	// the caller goes on using its slice: the list must not be looking at it any more
@@ -393,6 +416,20 @@ func (e *executor) wordList(a opArgs) (*spg.WordList, error, func() string) {
 		}
 		return ""
 	}
+}
+
+// callerBuffer: the way a caller that builds many lists does it — one buffer per length, refilled
+// in place. What NewWordList returns must depend on the words, not on which slice carried them.
+var callerBufs = map[int][]string{}
+
+func callerBuffer(words []string) []string {
+	b, ok := callerBufs[len(words)]
+	if !ok {
+		b = make([]string, len(words))
+		callerBufs[len(words)] = b
+	}
+	copy(b, words)
+	return b
 }
 
 var presets = map[string]spg.SFFunction{
@@ -500,6 +537,21 @@ func (e *executor) exec(line, lean string) string {
 		alpha := r.Alphabet()
 		capt.take()
 		n := utf8.RuneCountInString(alpha)
+		// Alphabet() is sorted, without repeats, and is exactly allowed-or-required minus excluded (C03)
+		alphaFail := ""
+		{
+			prev := rune(-1)
+			for _, c := range alpha {
+				if c <= prev {
+					alphaFail = " ALPHABET-FAIL=not-strictly-increasing"
+					break
+				}
+				prev = c
+			}
+			if alphaFail == "" && string(setsOf(spec).alphabet) != alpha {
+				alphaFail = " ALPHABET-FAIL=membership"
+			}
+		}
 		cnt := spg.VerifCount(*r)
 		capt.take()
 		M := new(big.Int).Exp(big.NewInt(int64(n)), big.NewInt(int64(maxInt(spec.L, 0))), nil)
@@ -586,8 +638,8 @@ func (e *executor) exec(line, lean string) string {
 			}
 		}
 		branch("charinfo:acc=" + accF)
-		return fmt.Sprintf("alpha=%s N=%d cnt=%s M=%s %s %s %s warnE=%d warnSP=%d%s%s", encCps(alpha), n, cnt.String(), M.String(),
-			d, spF, accOut, wE, wSP, unknownField(append(unk1, unk2...)), after())
+		return fmt.Sprintf("alpha=%s N=%d cnt=%s M=%s %s %s %s warnE=%d warnSP=%d%s%s%s", encCps(alpha), n, cnt.String(), M.String(),
+			d, spF, accOut, wE, wSP, alphaFail, unknownField(append(unk1, unk2...)), after())
 
 	case "chargen":
 		defer setCfg(a)()
@@ -613,7 +665,7 @@ func (e *executor) exec(line, lean string) string {
 		}
 		first := ""
 		for i := 0; i < reps; i++ {
-			src := append([]string{}, words...)
+			src := callerBuffer(words)
 			wl, err := spg.NewWordList(src)
 			_, dup, unk := classifyOutput(capt.take())
 			var l string
@@ -670,7 +722,18 @@ func (e *executor) exec(line, lean string) string {
 			_ = id
 		}
 		r = spg.NewWLRecipe(a.int("L"), wl)
-		applySep(r, a["sep"])
+		if id, ok := a["sepobj"]; ok && (strings.HasPrefix(a["sep"], "recipe:") || strings.HasPrefix(a["sep"], "preset:")) {
+			// one separator function shared by many calls and recipes, as a caller would keep it
+			key := id + "|" + a["sep"]
+			if f, ok := e.seps[key]; ok {
+				r.SeparatorFunc = f
+			} else {
+				applySep(r, a["sep"])
+				e.seps[key] = r.SeparatorFunc
+			}
+		} else {
+			applySep(r, a["sep"])
+		}
 		r.Capitalize = spg.CapScheme(decCps(a["cap"]))
 		before := *r
 		if a.int("L") > st.MaxLength {
